@@ -86,11 +86,13 @@ def tree_hash(repo):
         except OSError:
             h.update(b"<missing>")
         h.update(b"\0")
-    # the fact format depends on the tools too
-    for t in ("tools/astfacts/src/main.rs", "tools/mirfacts/src/main.rs"):
-        with open(os.path.join(VERIF, t), "rb") as fh:
-            h.update(fh.read())
     return h.hexdigest()[:20]
+
+
+def tool_hash(tool):
+    """the fact format depends on the tool that wrote it: part of the cached file / directory name"""
+    with open(os.path.join(VERIF, "tools", tool, "src", "main.rs"), "rb") as fh:
+        return hashlib.sha256(fh.read()).hexdigest()[:10]
 
 
 class Lock:
@@ -125,7 +127,7 @@ def get_ast(repo):
     """AST facts for all source files of the five crates; returns parsed JSON."""
     ensure_tools()
     d = facts_dir(repo)
-    out = os.path.join(d, "ast.json")
+    out = os.path.join(d, "ast-%s.json" % tool_hash("astfacts"))
     if not os.path.exists(out):
         with Lock():
             if not os.path.exists(out):
@@ -147,7 +149,7 @@ def get_ast(repo):
 def get_mir(repo, cfg="main"):
     """MIR facts for configuration `cfg`; returns list of per-crate fact dicts."""
     ensure_tools()
-    d = os.path.join(facts_dir(repo), "mir-" + cfg)
+    d = os.path.join(facts_dir(repo), "mir-%s-%s" % (cfg, tool_hash("mirfacts")))
     done = os.path.join(d, "DONE")
     try:
         os.utime(facts_dir(repo))
